@@ -13,7 +13,7 @@ from typing import Any, Dict, Optional, Set, Tuple, Union
 
 import PIL
 
-from .. import _ctlseqs as ctlseqs
+from .. import _ctlseqs as ctlseqs, utils
 
 # These sequences are used during performance-critical operations that occur often
 from .._ctlseqs import CURSOR_FORWARD, CURSOR_UP, ERASE_CHARS, ITERM2_START, ST
@@ -502,6 +502,11 @@ class ITerm2Image(GraphicsImage, metaclass=ITerm2ImageMeta):
                 # version string not "understood" or not available
                 except (ValueError, AttributeError):
                     pass
+
+            # A negative status determined while queries are disabled is not definite
+            if not (cls._supported or utils._queries_enabled):
+                cls._supported = None
+                return False
 
         return cls._supported
 
